@@ -489,8 +489,28 @@ def eval_visits(P, T, fname, mode):
     fn = P.fn(fname)
     bad, unsup, ncase = None, None, 0
     FN, GC = 4242, 4300
-    for sc in scenarios(T):
+    # the built-in types as distinct objects; for a map being marked, the key / value types are varied over reference-free built-in types
+    # (whose objects a tracer may skip) and other types (whose objects it must visit)
+    TYPES = {nm_: 8100 + i_ for i_, nm_ in enumerate(('Int', 'Float', 'String', 'Type', 'File', 'Process', 'Function', 'Ref', 'Box', 'Tuple', 'Array', 'List', 'Table', 'Tree'))}
+    LEAF = {TYPES['Int'], TYPES['Float'], TYPES['String']}
+    tvars = [None]
+    if mode == 'mark' and T in ('Table', 'Tree'):
+        tvars = [None, (TYPES['Float'], None), (None, TYPES['Float']), (TYPES['Int'], TYPES['Box']), (TYPES['Box'], TYPES['String'])]
+    for sc, tv in [(sc_, tv_) for sc_ in scenarios(T) for tv_ in tvars]:
         M = build(P, T, sc)
+        for nm_, tok_ in TYPES.items():
+            M.atoms.setdefault(('global', nm_), tok_)
+        skippable = []
+        if tv is not None:
+            if tv[0] is not None:
+                M.atoms[('elem', 'self', 0, 'ktype')] = tv[0]
+            if tv[1] is not None:
+                M.atoms[('elem', 'self', 0, 'vtype')] = tv[1]
+            M.label += ' (key type %s, value type %s)' % tuple(next((k_ for k_, v_ in TYPES.items() if v_ == t_), 'some other type') for t_ in tv)
+            if tv[0] in LEAF:
+                skippable += list(M.elems)
+            if tv[1] in LEAF:
+                skippable += list(M.vals)
         owned = list(M.elems) + list(M.vals)
         seen = []
 
@@ -550,6 +570,8 @@ def eval_visits(P, T, fname, mode):
             return 'something that is no element (%s)' % (v,)
         if r[0] != 'ret':
             bad = bad or '%s: the walk does not end' % M.label
+        elif skippable and len(set(seen)) == len(seen) and set(seen) <= set(owned) and set(owned) - set(seen) <= set(skippable):
+            pass          # objects of Int / Float / String hold no reference: a tracer may leave them out
         elif sorted(map(repr, seen)) != sorted(map(repr, owned)):
             missing = [name(v) for v in owned if v not in seen]
             bad = bad or '%s: visits %s%s' % (M.label, [name(v) for v in seen], (', never %s' % missing) if missing else '')
@@ -592,6 +614,11 @@ def eval_map_assign(P, T):
                     if T == 'Table':
                         a_[('elem', 'self', 0, 'nslots')] = 0
                         a_[('elem', 'self', 0, 'data')] = 0
+                    return 0
+                if nm == 'Tree_Clear_Entry' and T == 'Tree':
+                    # the recursive half of the clear, called directly: the entries go, the count and the root are the caller's to reset
+                    a_ = it.atoms
+                    ev_.append(('clear', a_[('elem', 'self', 0, 'ktype')], a_[('elem', 'self', 0, 'vtype')], a_[('elem', 'self', 0, 'ksize')], a_[('elem', 'self', 0, 'vsize')]))
                     return 0
                 if nm in ('implements_method_at_offset', 'type_implements_method_at_offset', 'implements'):
                     return has_types
@@ -653,6 +680,9 @@ def eval_map_assign(P, T):
                 msg = 'afterwards the key/value sizes are %s/%s; the types need %d/%d' % (atoms[('elem', 'self', 0, 'ksize')], atoms[('elem', 'self', 0, 'vsize')], SIZES[wk], SIZES[wv])
             elif [x for x in ev_ if x[0] == 'insert'] != [('insert', 7001 + k, 1100 + 7001 + k) for k in range(m)]:
                 msg = 'inserts %s; the source yields keys %s with values get(obj, key)' % ([x[1:] for x in ev_ if x[0] == 'insert'], [7001 + k for k in range(m)])
+            elif atoms[('elem', 'self', 0, 'nitems')] != 0:
+                # (the insertions are answered by the model and count nothing: what is left is what the clear left)
+                msg = 'the count is still %s after the old bindings were cleared: every insertion then counts on top of it' % atoms[('elem', 'self', 0, 'nitems')]
             if msg:
                 bad = bad or '%s: %s' % (label, msg)
     return bad, unsup, ncase
